@@ -292,10 +292,10 @@ func TestC21(t *testing.T) {
 			}
 			// reference for candle input
 			type acc struct {
-				minT, maxT     int64
-				high, low      float32
-				opens, closes  map[float32]bool
-				sum            float64
+				minT, maxT    int64
+				high, low     float32
+				opens, closes map[float32]bool
+				sum           float64
 			}
 			m := map[int64]*acc{}
 			for i, x := range cins {
